@@ -94,6 +94,17 @@ CLAIMED = {
         "(non-canonical edge numbering), all tables mutually consistent (Trace_C10).",
    note="Derived edge numbering is free (relations); fe/ef supplied without en: only numbering-independent clauses; edge dimension declared or implied.",
    ref="5 C10"),
+ "C11": dict(
+   text="TLC explores the complete state space of the binding machine (registry, datasets, convention objects, accessor cache; "
+        "one dataset of each of 4 contents + a copy slot, 2 registrable test classes, 2-3 convention objects; 30k-256k distinct "
+        "states) and checks DetectIsFunctionOfContent, HighestSpecificityWins, ManualWinsTies, NothingMatchesRefused, CachedIsBound, "
+        "AccessReturnsBound and the action properties BoundStable, SecondBindRefused, CopiesStartUnbound, CopiesIndependent; all 256 "
+        "detection feature vectors (every convention and near-miss) are concretised and detected under registration orders, and "
+        "every TLC-emitted behaviour (exhaustive to depth 3/4 + simulated depth 10) is replayed on real datasets with a fresh "
+        "registry; the answers and the convention attached to every live dataset after each step are validated by TLC against "
+        "the same actions (Trace_C11).",
+   note="Entry point order read from the installation; ties among equally specific built-ins are left open but must be repeatable.",
+   ref="5 C11"),
  "C15": dict(
    text="TLC checks on the bounded universe that the specification's export list (valid cells only, ascending, each with its "
         "linear and native index) satisfies OnlyValidCells / EveryValidCellOnce / LinearOrder / IndexesIdentifyCell; files written "
